@@ -180,6 +180,97 @@ func TestC19Serve(t *testing.T) {
 			}
 		}
 	}
+	// 1b. layout URLs that name NO file although a sibling exists (the partial of
+	// a full tile, another width of a partial tile, the full tile of a partial):
+	// there is no "file that path names", so the answer must not be a 200
+	for _, px := range prefixes {
+		root := px.Dir
+		if px.Sub != "" {
+			root = filepath.Join(px.Dir, filepath.FromSlash(px.Sub))
+		}
+		snap := snapshotDir(root)
+		n := 0
+		for _, rel := range sortedPaths(snap) {
+			relS := filepath.ToSlash(rel)
+			if snap[rel].Dir || !strings.HasPrefix(relS, "tile/") || strings.Contains(relS, "/.") {
+				continue
+			}
+			var cands []string
+			if i := strings.Index(relS, ".p/"); i >= 0 {
+				cands = append(cands, relS[:i], relS[:i]+".p/"+fmt.Sprint(1+rng.Intn(255)))
+			} else {
+				cands = append(cands, relS+".p/"+fmt.Sprint(1+rng.Intn(255)), relS+".p/255")
+			}
+			for _, c := range cands {
+				if _, exists := snap[filepath.FromSlash(c)]; exists {
+					continue
+				}
+				n++
+				if n > pick(120, 5000) {
+					break
+				}
+				resp, err := f.Get(px.Host, px.Path+"/"+c, ua)
+				r.Eval(1)
+				if err != nil {
+					continue
+				}
+				r.DistinctKey(fmt.Sprintf("%s/layout-names-no-file/%d", px.Kind, resp.Status))
+				r.Count("layout_urls_naming_no_file", 1)
+				if resp.Status == 200 || resp.Status == 206 {
+					r.Violate("layout-url-without-file-answered", map[string]any{"host": px.Host, "target": px.Path + "/" + c, "sibling": relS}, "%s names no file (its sibling %s exists) but was answered %d with %d bytes", c, relS, resp.Status, len(resp.Body))
+				}
+			}
+		}
+	}
+	// 1c. range requests on layout files: a partial-content answer is a
+	// successful answer and carries the same metadata; its body is that range
+	for _, px := range prefixes {
+		root := px.Dir
+		if px.Sub != "" {
+			root = filepath.Join(px.Dir, filepath.FromSlash(px.Sub))
+		}
+		snap := snapshotDir(root)
+		n := 0
+		for _, rel := range sortedPaths(snap) {
+			relS := filepath.ToSlash(rel)
+			isLayout := relS == "checkpoint" || strings.HasPrefix(relS, "tile/") || strings.HasPrefix(relS, "issuer/")
+			if snap[rel].Dir || !isLayout || strings.Contains(relS, "/.") || snap[rel].Size < 24 || (px.Kind != "log" && strings.HasPrefix(relS, "mirror/")) {
+				continue
+			}
+			n++
+			if n%5 != 0 {
+				continue
+			}
+			if n > pick(600, 100000) {
+				break
+			}
+			from, to := int64(rng.Intn(8)), int64(8+rng.Intn(15))
+			target := px.Path + "/" + relS
+			resp, err := f.GetH(px.Host, target, ua, fmt.Sprintf("Range: bytes=%d-%d\r\n", from, to))
+			r.Eval(1)
+			if err != nil {
+				continue
+			}
+			r.DistinctKey(fmt.Sprintf("%s/range/%d", px.Kind, resp.Status))
+			if resp.Status != 206 && resp.Status != 200 {
+				continue
+			}
+			info := map[string]any{"host": px.Host, "target": target, "range": fmt.Sprintf("%d-%d", from, to), "status": resp.Status}
+			want, _ := os.ReadFile(filepath.Join(root, rel))
+			if resp.Status == 206 {
+				want = want[from : to+1]
+				r.Count("partial_content_answers", 1)
+			}
+			if !bytes.Equal(resp.Body, want) {
+				r.Violate("range-answer-wrong-bytes", info, "range answer for %s is not that range of the file", relS)
+			}
+			for k, v := range expectHeaders(target, px.Kind) {
+				if got := resp.Header.Get(k); got != v {
+					r.Violate("layout-header:"+k, info, "%s (range request, status %d): header %s = %q, want %q", target, resp.Status, k, got, v)
+				}
+			}
+		}
+	}
 	// 2. non-existing coordinates and hostile targets under every prefix
 	hostile := []string{"/../secret.txt", "/..%2fsecret.txt", "/%2e%2e/secret.txt", "/%2e%2e%2fcanary/checkpoint", "/tile/../../canary/checkpoint", "/tile/..%2f..%2fcanary%2fcheckpoint",
 		"/..\\canary\\checkpoint", "/%5c..%5ccanary%5ccheckpoint", "//checkpoint", "/./checkpoint", "/checkpoint/", "/checkpoint/..", "/tile/", "/tile", "/tile/0/", "/tile/0", "/issuer/", "/issuer",
